@@ -60,7 +60,8 @@ impl MemoryCacheEntryInner {
         Self {
             value,
             created_at: now,
-            expires_at: ttl.map(|t| now + t),
+            // A TTL that ends beyond what the clock can represent never ends
+            expires_at: ttl.and_then(|t| now.checked_add(t)),
             size_bytes,
             last_accessed: AtomicU64::new(now_nanos),
             access_count: AtomicU64::new(1),
